@@ -89,6 +89,13 @@ fn main() {
             let stats = cypher::run_sessions(&sessions, &mut w, &scratch);
             println!("{stats}");
         }
+        "keys" => {
+            let inputs = read_ndjson(a.get("in").expect("--in"));
+            let out = std::fs::File::create(a.get("out").expect("--out")).unwrap();
+            let mut w = BufWriter::new(out);
+            let stats = cypher::run_keys(&inputs, &mut w);
+            println!("{stats}");
+        }
         other => {
             eprintln!("unknown subcommand {other}");
             std::process::exit(2);
